@@ -564,6 +564,7 @@ def check_C14(ctx, replay=None):
     pg = PolicyGen(rng, consts, arches_tbl)
     npol = 120 if q else 1500
     plines, mlines, ylines, pols = [], [], [], {}
+    unnamed_ids = set()
     for i in range(npol):
         kind = rng.choice(["names", "cond", "cond", "mixed", "mixed", "condlong", "single_cond", "degenerate"])
         an = rng.choice(PolicyGen.TABLE_ARCHES)
@@ -574,12 +575,21 @@ def check_C14(ctx, replay=None):
             g["action"] = rng.choice(list(DOC_ACTIONS.values()))
         if kind == "degenerate":
             pol["groups"] = [g for g in pol["groups"] if g["names"] or g["nwc"]] or [dict(action=DOC_ACTIONS["allow"], names=["read"], nwc=[])]
+        unnamed = False
+        if rng.random() < 0.12 and pol["groups"]:
+            # a group action that carries data bits (errno 38, trace 7, ...): it has no text form, so marshalling it may fail;
+            # if it succeeds and the text reads back, the program must still be the in-memory policy's
+            rng.choice(pol["groups"])["action"] = rng.choice([0x50000 | 38, 0x50000 | 13, 0x50000 | 4095, 0x7ff00000 | 7, 0x7ffc0000 | 1, 0x30000 | 5])
+            unnamed = True
         le = rng.randint(0, 1)
         cid = "c%d" % i
         toks = PolicyGen.tokens(pol)
         pols[cid] = (pol, le, an)
         plines.append("P %s %d %s %s" % (cid, le, an, toks))
         mlines.append("M %s %d %s %s" % (cid, le, an, toks))
+        if unnamed:
+            unnamed_ids.add(cid)
+            continue
         ylines.append("Y %s %d %s x%s" % (cid, le, an, yaml_of_policy(pol, rng).encode().hex()))
     if replay and replay.get("case"):
         plines = [replay["case"]]
@@ -600,6 +610,10 @@ def check_C14(ctx, replay=None):
             m_, y_, j_ = parts[0][4:], parts[1][5:], parts[2][5:]
             nconf += 2
             for nm, val in (("yaml", y_), ("json", j_)):
+                if f[1] in unnamed_ids or (replay and not val.startswith("OK")):
+                    # no text form is promised for such a value: only a SILENT change of meaning is judged
+                    if not (val.startswith("OK") and m_.startswith("OK") and val != m_):
+                        continue
                 if val != m_ and m_.startswith("OK"):
                     bad("a policy marshalled to %s and read back through the configuration path compiles to a different program" % nm.upper(),
                         case=[p for p in plines if p.split()[1] == f[1]][0], via=nm, in_memory=m_[:300], read_back=val[:300])
@@ -624,7 +638,8 @@ def check_C14(ctx, replay=None):
 
 # ------------------------------------------------------------------------------------------------ C19
 C19_THEOREMS = ["C19_builds_everywhere", "C19_consts_are_uapi", "C19_enosys_38_where_tables", "C19_named_actions_are_action_names",
-                "C19_same_program_everywhere", "C19_stubs_inert", "C19_stub_file_selection", "C19_no_table_no_filter", "C19_table_targets_resolve"]
+                "C19_same_program_everywhere", "C19_stubs_inert", "C19_stub_file_selection", "C19_no_table_no_filter", "C19_table_targets_resolve",
+                "C19_byte_order_probe_is_right"]
 
 UAPI = dict(ActionKillThread=0, ActionKillProcess=0x80000000, ActionTrap=0x30000, ActionErrno=0x50000, ActionTrace=0x7ff00000,
             ActionLog=0x7ffc0000, ActionAllow=0x7fff0000, ActionUserNotify=0x7fc00000, FilterFlagTSync=1, FilterFlagLog=2,
